@@ -435,6 +435,16 @@ def monitor(rp, script, out, tasks, crash, props):
                             viol.append(('C02', tag + 'wrong-gpu-amount', 'task %d: gpus %s, requested %d/16' % (uid, x[2], g)))
                         if x[3] != r['lfs'] or x[4] != r['mem']:
                             viol.append(('C02', tag + 'wrong-lfs-mem', str(x)))
+                    # a rank holds storage and memory only if its node had that much left when the placement was
+                    # granted (what the tasks granted before hold on that node is taken from the monitor's own account)
+                    if not has_app:
+                        for n in set(x[0] for x in sl if x[0] in init):
+                            for idx, what in ((3, 'lfs'), (4, 'mem')):
+                                left = init[n][what] - sum(y[idx] for u2, s2 in held.items() if u2 != uid for y in s2 if y[0] == n)
+                                asked = sum(y[idx] for y in sl if y[0] == n)
+                                if asked > left:
+                                    viol.append(('C02', 'ranks-hold-%s-their-node-does-not-have' % what,
+                                                 'task %d: its ranks on node %d hold %d %s, the node had %d left' % (uid, n, asked, what, left)))
                     if r['rpn']:
                         per = defaultdict(int)
                         for x in sl: per[x[0]] += 1
